@@ -4,8 +4,8 @@ From stdpp Require Import base option list numbers fin_maps nmap.
 From Verif.Base Require Import Bytes.
 From Verif.Codec Require Import Packets Decode Encode.
 From Verif.Topics Require Import Predefined.
-From Verif.Gateway Require Import GwTypes GwStep GwWf GwRun Sound_C07C08C09 Sound_Extra.
-From Verif.Checkers Require Import ChkCodec ChkGw ChkGw2.
+From Verif.Gateway Require Import GwTypes GwStep GwWf GwRun Sound_C07C08C09 Sound_Extra Sound_C07t.
+From Verif.Checkers Require Import ChkCodec ChkGw ChkGw2 ChkGw7.
 Open Scope N_scope.
 
 (* gw_accepted is a ghost flag that only the handling of a broker CONNACK(0) for the pending
@@ -46,3 +46,16 @@ Example C07_nonvacuous :
   [([], 1); ([Connack 0], 0)] /\
   gw_ending (snd (gw_run c07_cfg (init_state c07_cfg) [EvSn (pack (Disconnect 5))])) <> None.
 Proof. vm_compute. split; [reflexivity|discriminate]. Qed.
+
+(* The property as a monitor of the OBSERVED TRACE alone (Checkers/ChkGw7.v: mon7_step takes the configuration, the event
+   and the observations - no model state, so it also judges what an implementation does after the model's session
+   is over).  Code 8: an MQTT packet other than CONNECT / DISCONNECT (or garbage) is written to the broker while no
+   MQTT CONNECT has been written in this history - except in the step of a QoS -1 PUBLISH on a short or predefined
+   topic with authentication disabled, the property's stated exception.  Code 9: CONNACK "accepted" is written to
+   the client while the broker has not accepted a CONNECT (no event MqConnack _ 0 so far).  In EVERY history of the
+   model nothing is reported: *)
+Theorem C07_trace_all_histories :
+  forall cfg evs, wf_cfg cfg -> Forall wf_event evs ->
+    mon7_run cfg (init_state cfg) mon7_init evs = [].
+Proof. exact Sound_C07t.C07_trace_all_histories. Qed.
+Print Assumptions C07_trace_all_histories.
